@@ -13,7 +13,7 @@ import re
 import z3
 
 from pyvc import ops, tables
-from pyvc.core import Sym, SymSeq, exc_text, is_concrete_int
+from pyvc.core import Sym, SymSeq, canon_sexpr, exc_text, is_concrete_int
 from pyvc.harness import path_hyps
 from pyvc.ops import as_int_term
 
@@ -257,7 +257,7 @@ def spare_areas(it):
     for lf in getattr(it, "all_leaves", []):
         name = next((p for p in reversed(lf.path) if isinstance(p, str) and p != "[k]"), None)
         if is_spare_name(name):
-            out.append([z3.simplify(as_int_term(lf.off)).sexpr(), z3.simplify(as_int_term(lf.width)).sexpr(),
+            out.append([canon_sexpr(as_int_term(lf.off)), canon_sexpr(as_int_term(lf.width)),
                         ".".join(map(str, lf.path))])
     return out
 
@@ -291,7 +291,7 @@ def input_atoms(terms, descend=True):
 
 
 def _case_for(tc, res):
-    P_list = [z3.simplify(c).sexpr() for c in tables.fork_conditions(res.path)]
+    P_list = [canon_sexpr(c) for c in tables.fork_conditions(res.path)]
     P_when = set(P_list)
     for T in tc.table["cases"]:
         if set(T["when"]) == P_when:
@@ -408,11 +408,11 @@ def an_wf(sub, payload, unit, tag, res):
     T = _case_for(tc, res)
     pid = f"{prop}/{unit}/{tag}"
     wf = [(k, m, c) for k, m, c in getattr(res.path, "wf_assumptions", [])
-          if k != "file-long-enough" and "!" not in z3.simplify(c).sexpr()]  # '!': generic element of a trial parse
+          if k != "file-long-enough" and "!" not in canon_sexpr(c)]  # '!': generic element of a trial parse
     if T is None:
         return
     spec = {a for a in T.get("assumes", []) if "!" not in a}
-    extra = [(k, m, c) for k, m, c in wf if z3.simplify(c).sexpr() not in spec]
+    extra = [(k, m, c) for k, m, c in wf if canon_sexpr(c) not in spec]
     sub.decided(f"{pid}/preconditions-as-specified", True, function=fn, kind="safety", backend="term-identity",
                 detail={"assumptions": len(wf), "identical_to_specification": len(wf) - len(extra)})
     if extra:
